@@ -839,10 +839,12 @@ def pipe_case(case):
             except ScanError:
                 stage_changes = False
     res["nontrivial"] = bool(stage_changes)
-    res["sample"] = {"monitor": "a", "chain": chain_argv, "input_format": ifmt, "n_records": n,
+    sample = {"monitor": "a", "chain": chain_argv, "input_format": ifmt, "n_records": n,
                      "profile": "number-spellings(text intermediates only)" if rich else "json-safe",
                      "intermediate_format_sequences": [list(x) for x in seen_fmt_seqs]}
     res["stats"]["a_families"] = list(fams)
+    if case.get("sample"):
+        res["sample"] = sample
     return res
 
 
@@ -1190,8 +1192,10 @@ def ctx_case(case):
     res["stats"]["b_formats"] = [fmt]
     res["stats"]["b_file_kinds"] = [fd["kind"] for _, fd in flist]
     res["stats"]["b_opts"] = sorted(opts) or ["-"]
-    res["sample"] = {"monitor": "b", "format": fmt, "files": [{"name": n, "kind": fd["kind"], "records": len(fd["records"])} for n, fd in flist],
+    sample = {"monitor": "b", "format": fmt, "files": [{"name": n, "kind": fd["kind"], "records": len(fd["records"])} for n, fd in flist],
                      "flags": flags, "variants": variants, "mid": mid[0], "total_records": N}
+    if case.get("sample"):
+        res["sample"] = sample
     return res
 
 
@@ -1457,8 +1461,10 @@ def src_case(case):
                           dict(detail, first_diff=first_diff(fm["exp"], got), stderr=r.err[-1000:]))
     res["stats"]["c_formats"] = [fmt]
     res["stats"]["c_name_classes"] = [nameclass]
-    res["sample"] = {"monitor": "c", "format": fmt, "files": nfiles, "records": [len(r) for r in recsets], "name_class": nameclass,
+    sample = {"monitor": "c", "format": fmt, "files": nfiles, "records": [len(r) for r in recsets], "name_class": nameclass,
                      "forms": [f["form"] for f in forms]}
+    if case.get("sample"):
+        res["sample"] = sample
     return res
 
 
@@ -1472,6 +1478,7 @@ def _family_names():
 def run(chk):
     only = getattr(chk, "only", None)
     q = chk.quick()
+    chk.sample_cap = 9
     chk.rule = (
         "a: verb chains of length 2-4 drawn from a catalogue of 93 context-free verb/option families (put/filter programs that do "
         "not read NR/FNR/FILENAME, no random verbs, no print) x generated inputs (0..620 records, DKVP/JSON/CSV, ragged/heterogeneous/wide, "
@@ -1511,15 +1518,21 @@ def run(chk):
             for i in range(2000):
                 cases.append({"seed": f"{chk.seed}/a34/{i}", "tier": chk.tier, "len": 3 + (i % 2)})
             chk.extra["a_ordered_family_pairs_enumerated"] = len(fam_names) ** 2
+        for c in cases[:2] + cases[-2:]:
+            c["sample"] = True
         chk.pmap(pipe_case, cases, chunksize=4, label="a chain-vs-pipe")
     if not only or "b" in only:
         n = 20 if q else 112
         cases = [{"seed": f"{chk.seed}/b/{fmt}/{i}", "fmt": fmt, "tier": chk.tier} for fmt in B_FORMATS for i in range(n)]
+        for c in cases[:1] + cases[len(cases) // 2:len(cases) // 2 + 1] + cases[-1:]:
+            c["sample"] = True
         chk.pmap(ctx_case, cases, chunksize=2, label="b context model")
     if not only or "c" in only:
         fmts = ["dkvp", "csv", "json"] if q else ["dkvp", "csv", "json", "tsv", "nidx", "xtab", "jsonl"]
         n = 8 if q else 30
         cases = [{"seed": f"{chk.seed}/c/{fmt}/{i}", "fmt": fmt, "tier": chk.tier} for fmt in fmts for i in range(n)]
+        for c in cases[:1] + cases[-1:]:
+            c["sample"] = True
         chk.pmap(src_case, cases, label="c source forms")
     st = chk.stats
     fams_seen = st.pop("a_families", set())
